@@ -405,31 +405,13 @@ let run_reenc (proto : string) (pd : string) (su : string) (hex : string) : stri
      | _ -> "NA")
   | _ -> "NA"
 
-(* C05 with maps (Props/C05.v, C05_redecode_with_maps): decode, reflect the result through the heap
-   with every map iterated in the REVERSE of the stored order (one witness of ReflectFacts.reflects
-   that differs from insertion order), norm2 of that reflection, printed like a decoded value.
+(* C05 with maps (Props/C05.v, C05_redecode_with_maps_computed): decode, reflect the result through the
+   heap with every map iterated in the REVERSE of the stored order (a reflection that differs from
+   insertion order), norm2 of that reflection, printed like a decoded value.
    NA: decode failed, the result is cyclic / too deep, or norm2 is undefined at this protocol *)
 let reflect_rev (h : heap) (v : val0) : rval option =
-  let exception Stop in
-  let rec go (d : int) (x : val0) : rval =
-    if d > 60 then raise Stop;
-    match reify x with
-    | Some r -> r
-    | None ->
-      (match x with
-       | VList (_, l) -> RList (List.map (go (d + 1)) l)
-       | VTuple l -> RTuple (List.map (go (d + 1)) l)
-       | VCall (m, n, l) -> RCall (m, n, List.map (go (d + 1)) l)
-       | VMap id ->
-         (match heap_get h id with
-          | Some (HMap es) -> RMap (List.rev_map (fun (k, w) -> (go (d + 1) k, go (d + 1) w)) es)
-          | _ -> raise Stop)
-       | VDict id ->
-         (match heap_get h id with
-          | Some (HDict es) -> RDict (List.rev_map (fun (k, w) -> (go (d + 1) k, go (d + 1) w)) es)
-          | _ -> raise Stop)
-       | _ -> raise Stop) in
-  try Some (go 0 v) with Stop -> None
+  (* NormMaps.reflect, extracted: reverse stored order, nesting depth <= 60 (ReflectFacts.reflect_sound) *)
+  reflect (nat_of_int 60) true h v
 
 let run_reenc2 (proto : string) (pd : string) (su : string) (hex : string) : string =
   let ecfg = { e_proto = z_of_dec proto; e_strict = (su = "1"); e_isprint = is_print_hi; e_fmtg = fmt_g } in
